@@ -166,7 +166,7 @@ func (r *DynamicHostResolver) addressResolved(hostname string, addrs []string, e
 				entry.addrs = newAddrs
 				zap.L().Error("the failed times for resolving hostname exceeds 3", zap.String("hostname", hostname), zap.Int("failed", entry.failed))
 				entry.failed = 0
-				go r.notifyAddressChanged(hostname, entry, newAddrs, removedAddrs)
+				go r.notifyAddressChanged(hostname, entry.copyCallbacks(), newAddrs, removedAddrs)
 			}
 		} else {
 			newAddrs := strArraySub(addrs, entry.addrs)
@@ -176,14 +176,20 @@ func (r *DynamicHostResolver) addressResolved(hostname string, addrs []string, e
 			if len(newAddrs) > 0 || len(removedAddrs) > 0 {
 				zap.L().Info("the ip address of host is changed", zap.String("hostname", hostname), zap.String("newAddrs", strings.Join(newAddrs, ",")), zap.String("removedAddrs", strings.Join(removedAddrs, ",")))
 
-				go r.notifyAddressChanged(hostname, entry, newAddrs, removedAddrs)
+				go r.notifyAddressChanged(hostname, entry.copyCallbacks(), newAddrs, removedAddrs)
 			}
 		}
 	}
 }
 
-func (r *DynamicHostResolver) notifyAddressChanged(hostname string, entry *AddressWithCallback, newAddrs []string, removedAddrs []string) {
-	for _, callback := range entry.callbacks {
+// copyCallbacks must be called with the resolver locked: the notification
+// goroutine works on the copy while ResolveHost may append further callbacks
+func (a *AddressWithCallback) copyCallbacks() []IPResolvedCallback {
+	return append([]IPResolvedCallback(nil), a.callbacks...)
+}
+
+func (r *DynamicHostResolver) notifyAddressChanged(hostname string, callbacks []IPResolvedCallback, newAddrs []string, removedAddrs []string) {
+	for _, callback := range callbacks {
 		callback(hostname, newAddrs, removedAddrs)
 	}
 
